@@ -313,7 +313,7 @@ func runGroup(g group) string {
 	if g.g > 0 {
 		defer runtime.GOMAXPROCS(runtime.GOMAXPROCS(g.g))
 	}
-	defer func() { hash.VerifYield = nil }()
+	defer setYield(nil)
 	var outs, leaks []string
 	calls := 0
 	leaked := false
@@ -348,9 +348,9 @@ func runGroup(g group) string {
 				}
 			}
 			if p.mode == 0 {
-				hash.VerifYield = nil
+				setYield(nil)
 			} else {
-				hash.VerifYield = p.yield
+				setYield(p.yield)
 			}
 			before := runtime.NumGoroutine()
 			o := safeHash(paths)
@@ -374,7 +374,7 @@ func runGroup(g group) string {
 				break
 			}
 		}
-		hash.VerifYield = nil
+		setYield(nil)
 		var set []string
 		for o := range seen {
 			set = append(set, o)
